@@ -2,6 +2,7 @@ package main
 
 import (
 	"fmt"
+	"path/filepath"
 	"strings"
 
 	"verifharness/lib"
@@ -181,7 +182,7 @@ func corrMemfs(seed uint64, tier string, replay []string, prop string, opts fsGe
 				}
 			}
 			prev = cur
-			if strings.HasPrefix(cur, "dump ") && (k%4 == 0 || tier == "thorough") {
+			if strings.HasPrefix(cur, "dump ") {
 				wfLines = append(wfLines, "fs wfcheck "+cur)
 				wfWhere = append(wfWhere, [2]int{k, i})
 			}
@@ -242,6 +243,13 @@ func corrMemfs(seed uint64, tier string, replay []string, prop string, opts fsGe
 		seen[sig] = true
 		mm := lib.Mismatch{History: fx, Impl: si, Model: sm, Index: di, Class: "corr-impl memfs " + sig}
 		mm.Kind, mm.What = classifyFs(prop, fx, si, sm, di)
+		if mm.Kind == "unproved" {
+			// search: does the implementation break one of the property's own oracles on this (shrunk) history?
+			if extra := searchOracles(fx, si, opts); extra != nil {
+				mm.Kind = "explained"
+				res.Mismatches = append(res.Mismatches, *extra)
+			}
+		}
 		res.Mismatches = append(res.Mismatches, mm)
 		if len(res.Mismatches) >= 12 {
 			break
@@ -257,4 +265,76 @@ func classifyFs(prop string, h lib.History, impl, model []string, d int) (string
 		return "violation", fmt.Sprintf("call %q %ss on the implementation (C07: every call returns)", h[d], impl[d])
 	}
 	return "unproved", fmt.Sprintf("implementation and Lean model differ at %q: impl %q model %q", h[d], impl[d], model[d])
+}
+
+// searchOracles evaluates the properties' own oracles on a history on which impl and model disagree:
+// (1) the tree invariant on impl's dumped graphs (Lean wfCheck), (2) a failed call must leave the graph unchanged,
+// (3) the Linux kernel (OsFS in a chroot) on the same history. Returns a mismatch describing the failing input.
+func searchOracles(h lib.History, impl []string, opts fsGenOpts) *lib.Mismatch {
+	var wfLines []string
+	var at []int
+	prev := ""
+	for i, l := range h {
+		if !strings.HasSuffix(l, " dump") || !strings.HasPrefix(impl[i], "dump ") {
+			continue
+		}
+		if i > 0 && prev != "" && strings.HasPrefix(impl[i-1], "err ") && impl[i] != prev {
+			pf := strings.Fields(h[i-1])
+			if pf[2] != "removeall" && pf[2] != "file" {
+				return &lib.Mismatch{Kind: "violation", Class: "c05.failed-call-changed-tree." + pf[2], What: fmt.Sprintf("the call %q failed with %q but changed the tree", h[i-1], impl[i-1]),
+					History: h[:i+1], Impl: []string{prev, impl[i]}, Index: i}
+			}
+		}
+		prev = impl[i]
+		wfLines = append(wfLines, "fs wfcheck "+impl[i])
+		at = append(at, i)
+	}
+	if out, err := lib.RunDriver(wfLines); err == nil {
+		for j, o := range out {
+			if o != "ok true" {
+				i := at[j]
+				return &lib.Mismatch{Kind: "violation", Class: "c05.impl-graph-not-wellformed", What: fmt.Sprintf("after %q the implementation's node graph violates the tree invariant (link counts / tree shape): wfCheck = %s", h[i-1], o),
+					History: h[:i+1], Impl: []string{impl[i]}, Index: i}
+			}
+		}
+	}
+	// conservation: a successful Rename moves entries, it never loses any (at most the replaced destination goes)
+	prevN := -1
+	for i, l := range h {
+		if strings.HasSuffix(l, " dump") && strings.HasPrefix(impl[i], "dump ") {
+			n := len(strings.Fields(impl[i]))
+			if i > 0 && prevN >= 0 && impl[i-1] == "ok" && strings.Fields(h[i-1])[2] == "rename" && n < prevN-1 {
+				return &lib.Mismatch{Kind: "violation", Class: "c05.rename-lost-entries", What: fmt.Sprintf("%q succeeded and %d nodes are no longer reachable from the root", h[i-1], prevN-n),
+					History: h[:i+1], Impl: []string{impl[i]}, Index: i}
+			}
+			prevN = n
+		}
+	}
+	// the kernel oracle runs as the administrator, on clean absolute paths, through one view
+	for _, l := range h {
+		f := strings.Fields(l)
+		if len(f) < 3 || f[1] == "new" || f[2] == "dump" {
+			continue
+		}
+		if f[1] != "0" || f[2] == "setuser" || f[2] == "sub" || f[2] == "setumask" {
+			return nil
+		}
+		for _, x := range f[3:] {
+			if strings.HasPrefix(x, "2f") || strings.HasPrefix(x, "2e") || x == "-" {
+				pth := lib.UnHex(x)
+				if f[2] == "symlink" && x == f[3] {
+					continue
+				}
+				if pth == "" || pth[0] != '/' || filepath.Clean(pth) != pth || pth == "/" {
+					return nil
+				}
+			}
+		}
+	}
+	l, a, b := runBoth(h)
+	if d := lib.FirstDiff(a, b); d >= 0 {
+		return &lib.Mismatch{Kind: "known", Class: kernelClass(l, a, b, d), What: fmt.Sprintf("MemFS and the Linux kernel disagree at %q: MemFS %q, kernel %q", l[d], trunc(a[d]), trunc(b[d])),
+			History: l, Impl: a, Expected: b, Index: d}
+	}
+	return nil
 }
